@@ -44,7 +44,8 @@ def _e1_parts(prop):
     ] + ([{"name": "swarm-upload", "pkg": "c16_upload", "netns": "isolated", "race": False, "shards": 16, "env": {"VERIF_PROP": "C01"}},
           {"name": "swarm-readers", "pkg": "c02_reader", "netns": "loopback", "race": False, "shards": 16, "env": {"VERIF_PROP": "C01", "VERIF_PART": "readers"}},
           {"name": "swarm-frontends", "pkg": "c02_reader", "netns": "loopback", "race": False, "shards": 16, "env": {"VERIF_PROP": "C01", "VERIF_PART": "frontends"}},
-          {"name": "swarm-large", "pkg": "c09_conserve", "netns": "isolated", "race": False, "shards": 9, "env": {"VERIF_PROP": "C01", "VERIF_PART": "large"}}] if prop == "C01" else []) + ([{"name": "lru", "pkg": "e1_store", "race": False, "shards": 16, "env": {"VERIF_PROP": prop}},
+          {"name": "swarm-large", "pkg": "c09_conserve", "netns": "isolated", "race": False, "shards": 9, "env": {"VERIF_PROP": "C01", "VERIF_PART": "large"}},
+          {"name": "swarm-hashdel", "pkg": "c17_lifecycle", "netns": "isolated", "race": False, "shards": 8, "env": {"VERIF_PROP": "C01", "VERIF_PART": "hashdel"}}] if prop == "C01" else []) + ([{"name": "lru", "pkg": "e1_store", "race": False, "shards": 16, "env": {"VERIF_PROP": prop}},
           {"name": "torexpire", "pkg": "c03_torexpire", "netns": "isolated", "race": False, "shards": 16}] if prop == "C03" else [])
 
 CHECKS["C01"] = {
